@@ -18,7 +18,7 @@ done
 if [ "$2" = "--update" ] && [ -n "$3" ]; then
   echo "== updated owned files matching /$3/"
   find . -type f \( -name '*.lean' -o -name '*.py' -o -name '*.json' \) \
-    -not -path './lean/.lake/*' -not -path './replays/*' -not -path './evidence/*' -not -path '*/__pycache__/*' | grep -E "$3" | sort | while read f; do
+    -not -path './lean/.lake/*' -not -path './replays/*' -not -path './evidence/*' -not -path './seeded/*' -not -path './.scratch/*' -not -path '*/__pycache__/*' | grep -E "$3" | sort | while read f; do
     if [ -e "/verif/$f" ] && ! cmp -s "$f" "/verif/$f"; then cp "$f" "/verif/$f"; echo "  * $f"; fi
   done
 fi
